@@ -156,3 +156,27 @@ def outputs_literal(sub):
                 return True
         return False
     return p
+
+
+def lambdas_in_tree(fb, t):
+    """Functions of the lambda expressions written inside tree t."""
+    from .core import walk
+    return [fb.funcs[n['f']] for n in walk(t) if n.get('k') == 'lambda' and n.get('f') in fb.funcs]
+
+
+def this_fields_read(func):
+    """Access paths `this.x` mentioned by the events and conditions of a function (a predicate lambda)."""
+    from .core import walk, ap
+    out = set()
+    trees = [e for _, _, e in func.events()]
+    for bid, blk in func.blocks.items():
+        c = (blk.get('term') or {}).get('cond')
+        if c is not None and bid not in func.dead:
+            trees.append(c)
+    for t in trees:
+        for n in walk(t):
+            if n.get('k') == 'mem':
+                p = ap(n)
+                if p and p.startswith('this.'):
+                    out.add(p)
+    return out
